@@ -1,6 +1,7 @@
 package checks
 
 import (
+	"bytes"
 	"encoding"
 	"encoding/gob"
 	"encoding/hex"
@@ -12,6 +13,7 @@ import (
 	"os"
 	"path/filepath"
 	"reflect"
+	"runtime"
 	"runtime/metrics"
 	"sort"
 	"strings"
@@ -574,6 +576,143 @@ func c04Run(c *engine.Ctx) {
 					t.AddEvals(n-1, n-1)
 				})
 			}
+		}
+	}
+	// 1c. numbers at the edges of the integer types (negative, 2^26, 2^63-1, 2^64-1, beyond, fractions) as the value of every
+	// number property of a SATURATED document: a count that is believed next to the members it counts sizes an allocation
+	{
+		edges := []string{"-1", "-9223372036854775808", "67108864", "9223372036854775807", "18446744073709551615", "1e19", "1e308", "-1e308", "0.5", "-0.5", "1e-320"}
+		top := c04Entries()[0]
+		for i := range universe.Structs {
+			s := &universe.Structs[i]
+			var docs [][]byte
+			universe.Saturated(s, universe.JSON, func(r universe.Recipe) {
+				if len(docs) < 2 {
+					if b, err := ap.MarshalJSON(r.Item()); err == nil && len(b) > 0 {
+						docs = append(docs, b)
+					}
+				}
+			})
+			for _, f := range s.Fields {
+				switch f.Kind {
+				case universe.KFloat, universe.KInt, universe.KUint:
+				default:
+					continue
+				}
+				s, f := s, f
+				c.Do("C04|UnmarshalJSON", func() string {
+					return fmt.Sprintf("UnmarshalJSON on a saturated %s document whose %s is each of %v", s.SpecificName(), f.Term, edges)
+				}, func(t *engine.T) {
+					n := int64(0)
+					for _, doc := range docs {
+						var m map[string]json.RawMessage
+						if json.Unmarshal(doc, &m) != nil {
+							continue
+						}
+						for _, e := range edges {
+							m[f.Term] = json.RawMessage(e)
+							b, err := json.Marshal(m)
+							if err != nil {
+								continue
+							}
+							c04Try(t, top, "numeric-edge", b)
+							n++
+						}
+					}
+					if n > 0 {
+						t.AddEvals(n-1, n-1)
+					}
+				})
+			}
+		}
+	}
+	// 1d. decoding cost grows with the input, not with 2^depth: an array holding the SAME chain twice (a value of every type nested
+	// in itself through each of its item properties) makes the decoder compare the two members when it builds the list. The cost is
+	// measured in allocations at depth 8 and 14: a linear decoder needs under twice as many, one that compares with doubled work
+	// at every level 64 times as many (bound: 8x). A 4 KiB document of depth 36 would otherwise take days.
+	{
+		top := c04Entries()[0]
+		for i := range universe.Structs {
+			s := &universe.Structs[i]
+			if s.Name == "Link" {
+				continue
+			}
+			c.Do("C04|UnmarshalJSON", func() string {
+				return fmt.Sprintf("UnmarshalJSON on {type:Note, tag:[chain, chain]} with chains of 8 and 14 %s documents through each item property", s.SpecificName())
+			}, func(t *engine.T) {
+				n := int64(0)
+				for _, f := range s.ItemFields() {
+					if f.Term == "id" || f.Term == "type" {
+						continue
+					}
+					doc := func(depth int) []byte {
+						var b bytes.Buffer
+						for d := 0; d < depth; d++ {
+							fmt.Fprintf(&b, `{"id":"https://example.com/chain/%d","type":%q,%q:`, d, s.SpecificName(), f.Term)
+						}
+						b.WriteString(`"https://example.com/leaf"`)
+						b.WriteString(strings.Repeat("}", depth))
+						return []byte(`{"type":"Note","tag":[` + b.String() + `,` + b.String() + `]}`)
+					}
+					cost := func(depth int) uint64 {
+						in := doc(depth)
+						var before, after runtime.MemStats
+						runtime.ReadMemStats(&before)
+						func() {
+							defer func() { recover() }()
+							top.decode(append([]byte(nil), in...))
+						}()
+						runtime.ReadMemStats(&after)
+						return after.Mallocs - before.Mallocs
+					}
+					t.Step(func() string { return "equal chains through " + f.Term })
+					// what is done with a decoded value afterwards (both encoders, formatting) must not double its work per level either
+					after := func(depth int, op func(ap.Item)) uint64 {
+						it, err := ap.UnmarshalJSON(doc(depth))
+						if err != nil || it == nil {
+							return 0
+						}
+						var before, after runtime.MemStats
+						runtime.ReadMemStats(&before)
+						func() {
+							defer func() { recover() }()
+							op(it)
+						}()
+						runtime.ReadMemStats(&after)
+						return after.Mallocs - before.Mallocs
+					}
+					slow := false
+					for _, o := range []struct {
+						name string
+						op   func(ap.Item)
+					}{{"MarshalJSON", func(it ap.Item) { ap.MarshalJSON(it) }}, {"GobEncode", func(it ap.Item) { ap.GobEncode(it) }},
+						{"GobEncode+GobDecode", func(it ap.Item) {
+							if g, err := ap.GobEncode(it); err == nil {
+								ap.GobDecode(g)
+							}
+						}}, {"Sprintf", func(it ap.Item) { _ = fmt.Sprintf("%s %v %+v", it, it, it) }}} {
+						if b8, b14 := after(8, o.op), after(14, o.op); b14 > 8*b8+5000 {
+							slow = true
+							t.Fail("C04|UnmarshalJSON|equal-chains|"+s.Name+"|"+f.Term+"|"+o.name+"-super-linear", "%s of the value decoded from a chain of %s documents through %s costs %d allocations at depth 8 and %d at depth 14 (x%d): the cost doubles with every level",
+								o.name, s.SpecificName(), f.Term, b8, b14, b14/(b8+1))
+						}
+					}
+					if slow {
+						continue
+					}
+					a8, a14 := cost(8), cost(14)
+					if a14 > 8*a8+5000 {
+						t.Fail("C04|UnmarshalJSON|equal-chains|"+s.Name+"|"+f.Term+"|super-linear", "decoding an array of two equal chains of %s documents through %s costs %d allocations at depth 8 and %d at depth 14 (x%d): the cost doubles with every level\ninput (depth 8): %s",
+							s.SpecificName(), f.Term, a8, a14, a14/(a8+1), doc(8))
+					} else {
+						c04Try(t, top, "equal-chains", doc(60))
+					}
+					n += 2
+				}
+				if n > 0 {
+					t.AddEvals(n-1, n-1)
+				}
+			})
 		}
 	}
 	// 2. JSON seeds
